@@ -53,7 +53,8 @@ impl TypeParameters {
                 .expect("Checked for exactly one unused param");
             quote! { #param }
         } else {
-            let params = self.unused.iter();
+            // declared order, not the id-dependent order of the set
+            let params = self.params.iter().filter(|p| self.unused.contains(p));
             quote! { ( #( #params ), * ) }
         };
         Some(syn::parse_quote! {::core::marker::PhantomData<#params> })
